@@ -111,8 +111,7 @@ class PointerProgram:
                         else:
                             env[v['id']] = self.value(fn, init, this, env, depth)
                 elif c == 'CXXOperatorCallExpr' and o.get('op') == '=' and self.is_top(fn, n):
-                    a = o['args']
-                    self.lvalue(fn, a[0], this, env, depth).set(self.value(fn, a[1], this, env, depth))
+                    self.value(fn, n, this, env, depth)
                 elif c == 'BinaryOperator' and o.get('op') == '=' and self.is_top(fn, n):
                     ks = fn.kids(n)
                     self.lvalue(fn, ks[0], this, env, depth).set(self.value(fn, ks[1], this, env, depth))
@@ -178,6 +177,23 @@ class PointerProgram:
             return self.lvalue(fn, o['args'][0], this, env, depth)
         raise Unsupported('lvalue %s at %s' % (c, fn.nloc(n)))
 
+    def consume(self, fn, n, this, env, depth, keep=None):
+        """The move constructor / move assignment of a smart pointer leaves its source empty: when the source expression is an
+        xvalue of a variable or field (std::move(x)), that storage now holds null."""
+        m = fn.strip_all_casts(n)
+        o = fn.nodes[m]
+        if o['cls'] == 'CallExpr' and short((fn.callee(m) or {}).get('key', '')) in ('std::move', 'std::forward') and o.get('vk') == 'x':
+            try:
+                src = self.lvalue(fn, o['args'][0], this, env, depth)
+            except Unsupported:
+                return
+            if keep is not None and isinstance(src, Ref) and isinstance(keep, Ref) and src.obj is keep.obj and src.key == keep.key:
+                return
+            if isinstance(self.deref(src), Handle):
+                src.set(Handle(None))
+            else:
+                src.set(None)
+
     def value(self, fn, n, this, env, depth):
         n = fn.strip_all_casts(n)
         o = fn.nodes[n]
@@ -230,6 +246,8 @@ class PointerProgram:
                 if not args:
                     return None
                 v = self.deref(self.value(fn, args[0], this, env, depth))
+                if (cal or {}).get('ctor') == 'move':
+                    self.consume(fn, args[0], this, env, depth)
                 return v.node if isinstance(v, Handle) else v
             raise Unsupported('construction of %s at %s' % (cls, fn.nloc(n)))
         if c == 'CXXOperatorCallExpr':
@@ -242,7 +260,10 @@ class PointerProgram:
                 return self.deref(self.value(fn, a[0], this, env, depth))
             if op == '=':
                 v = self.value(fn, a[1], this, env, depth)
-                self.lvalue(fn, a[0], this, env, depth).set(self.deref(v))
+                dst = self.lvalue(fn, a[0], this, env, depth)
+                if (fn.callee(n) or {}).get('assign') == 'move':
+                    self.consume(fn, a[1], this, env, depth, keep=dst)
+                dst.set(self.deref(v))
                 return v
             raise Unsupported('operator%s at %s' % (op, fn.nloc(n)))
         if c == 'CXXMemberCallExpr':
